@@ -134,7 +134,7 @@ def run(ctx):
                     want = [] if t == 3 else [(3, seqs[0])]
                     active, err, si, so, got = obs
                     if not active or err != "-":
-                        e = pair.subject.saved_exception
+                        e = L.root_exc(pair.subject.saved_exception)
                         sig = "unhandled-type-kills-session:" + (exc_site(e) if e is not None else "loop-left")
                         ctx.fail(sig, case, "subject inactive after type %d: %r" % (t, e))
                         deaths += 1
@@ -159,7 +159,7 @@ def run(ctx):
                 active, err, si, so, got = obs
                 want = [(3, s) for (t, _p), s in zip(tp, seqs) if t != 3]
                 if not active or err != "-":
-                    e = pair.subject.saved_exception
+                    e = L.root_exc(pair.subject.saved_exception)
                     ctx.fail("unhandled-type-kills-session:" + (exc_site(e) if e is not None else "loop-left"),
                              case, "subject inactive after a batch: %r" % (e,))
                     deaths += 1
